@@ -327,7 +327,24 @@ def body_sampling(case, ctx):
                 raise Violation(f"sampling:bounds:{c['kind']}", f"coordinate {i}: draws in [{col.min()}, {col.max()}] leave support {(lo, hi)}")
             ks_check(col, ref_cdf(c["kind"], p), f"sampling:law:{c['kind']}",
                      f"coordinate {i} owned by {c['kind']}{p} in layout {[(k['kind'], k['idx']) for k in comps]}", ctx)
-    # independence of successive draws: lag-1 correlation of PIT values is ~ N(0, 1/N)
+    # the joint density is the product of the components': different coordinates of one draw are independent. Exact-null test: under
+    # independence the normal scores of two coordinates have a sample correlation r with r*sqrt((N-2)/(1-r^2)) ~ Student-t(N-2)
+    owner = {i: (c["kind"], p) for c in comps for i, p in zip(c["idx"], c["pars"])}
+    scores = {}
+    for i in range(n):
+        u = np.clip(ref_cdf(*owner[i])(draws[:, i]), 1e-300, 1 - 1e-16)
+        scores[i] = stats.norm.ppf(u)
+    for i in range(n):
+        for j in range(i + 1, n):
+            if np.std(scores[i]) == 0 or np.std(scores[j]) == 0:
+                continue
+            r = float(np.corrcoef(scores[i], scores[j])[0, 1])
+            tstat = r * np.sqrt((N - 2) / max(1 - r * r, 1e-300))
+            pval = float(2 * stats.t.sf(abs(tstat), N - 2))
+            ctx.stat(test="correlation-t", what=f"coordinates {i},{j}", n=N, statistic=r, p=pval, threshold=P_FLOOR)
+            if pval < P_FLOOR:
+                raise Violation(f"sampling:dependence:{owner[i][0]}-{owner[j][0]}", f"coordinates {i} ({owner[i][0]}) and {j} ({owner[j][0]}) of one draw are correlated: r = {r:.4f} over {N} draws "
+                                                                                   f"(p = {pval:.3g}) in layout {[(k['kind'], k['idx']) for k in comps]}")
     ctx.nontrivial(interleaved(comps))
     ctx.event("interleaved" if interleaved(comps) else "ascending")
     ctx.event(f"ncomp={len(comps)}")
